@@ -10,7 +10,7 @@ RULE = (
     "empty / list attribute values and custom separators; distinct = hash of the configuration; trivial = single row"
 )
 ASSUMPTIONS = ["decoder labels are unique single-line strings that do not start with a style segment", "custom styles use three distinct strings of equal width"]
-GATES = ["mon.C09.rows", "mon.C09.decoder", "mon.C09.text", "mon.C09.repr", "C09.depth_ge_4", "C09.last_under_nonlast", "C09.childiter_changes_last", "C09.multiline", "C09.empty_value", "C09.maxlevel_cuts", "C09.abandoned_iteration"]
+GATES = ["mon.C09.rows", "mon.C09.decoder", "mon.C09.text", "mon.C09.repr", "C09.depth_ge_4", "C09.last_under_nonlast", "C09.childiter_changes_last", "C09.multiline", "C09.empty_value", "C09.maxlevel_cuts", "C09.abandoned_iteration", "C09.after_mutation"]
 
 
 def plan(tier, seed, jobs):
@@ -339,9 +339,69 @@ def run(ctx):
             check_config(ctx, lib, nodes, idmap, par, ch, s, st, ci, ml, case, names)
         ctx.case(("text", r))
         check_text(ctx, lib, ctx.rng("text", r), [ctx.seed, ctx.shard, r])
+    histories(ctx, lib, sts)
+
+
+def histories(ctx, lib, sts):
+    """Rows, decoder and Node reprs (the separator-joined path of names) again on the same objects after every
+    step of a mutation history, some calls aborted by a raising hook."""
+    from .. import trees as TR
+
+    T = ctx.tier == "thorough"
+    nh = (20000 if T else 200) // ctx.nshards + 1
+    for h in range(nh):
+        rng = ctx.rng("hist", h)
+        fam = ("Node", "NM", "LM", "Node")[h % 4]
+        k = rng.randint(3, 9)
+        names = ["n%d" % i for i in range(k)]
+        for nodes, par, ch, case in TR.evolving_universe(ctx, rng, fam, k, rng.randint(4, 16), fault_rate=(0.3 if h % 2 else 0.0)):
+            idmap = {id(o): i for i, o in enumerate(nodes)}
+            cis = childiters(idmap)
+            ctx.count("C09.after_mutation")
+            for _ in range(2):
+                s = rng.randrange(k)
+                st, ci = rng.choice(sts), rng.choice(cis)
+                ml = rng.choice([None, None, 1, 2, 3])
+                ctx.case(("hist", h, len(case["history"]), s, st[0], ci[0], ml), nontrivial=bool(ch[s]))
+                if not check_config(ctx, lib, nodes, idmap, par, ch, s, st, ci, ml, dict(case, hist_start=s, style=st[0], childiter=ci[0], maxlevel=ml), names):
+                    return
+            if fam == "Node":
+                for i in range(k):
+                    ctx.count("mon.C09.repr")
+                    exp = "HNode(%r)" % ("/" + "/".join(names[x] for x in R.path(par, i)))
+                    if repr(nodes[i]) != exp:
+                        ctx.violation("C09/repr/Node-after-mutation", "repr", dict(case, node=i), expected=exp, observed=repr(nodes[i]))
+                        return
 
 
 def replay(ctx, wit):
+    if "history" in wit["case"]:
+        from .. import trees as TR
+        from ..common import lib as getlib
+
+        lib = getlib()
+        c = wit["case"]
+        ctx.case(("replay",))
+        sts = styles(lib)
+        for nodes, par, ch in TR.replay_universe(c):
+            k = len(nodes)
+            names = ["n%d" % i for i in range(k)]
+            idmap = {id(o): i for i, o in enumerate(nodes)}
+            cis = childiters(idmap)
+            for s in range(k):
+                st = [x for x in sts if x[0] == c.get("style", "ascii")][0]
+                ci = [x for x in cis if x[0] == c.get("childiter", "list")][0]
+                check_config(ctx, lib, nodes, idmap, par, ch, s, st, ci, c.get("maxlevel"), c, names)
+            if c["family"] == "Node":
+                for i in range(k):
+                    exp = "HNode(%r)" % ("/" + "/".join(names[x] for x in R.path(par, i)))
+                    if repr(nodes[i]) != exp:
+                        ctx.violation("C09/repr/Node-after-mutation", "repr", dict(c, node=i), expected=exp, observed=repr(nodes[i]))
+        return
+    _replay_static(ctx, wit)
+
+
+def _replay_static(ctx, wit):
     from .. import trees as TR
     from ..common import lib as getlib
     import random
